@@ -189,6 +189,7 @@ def run_case(case):
     # 3. layers torn down
     v, st = oracles.layer_machine(events, spec, plan)
     viol += v
+    viol += w.cviol[:3]
     counters['test_events_judged'] = st['test_events_judged']
     # 4. summary line per layer iteration, totals
     info = w.info
